@@ -45,8 +45,14 @@ type Case struct {
 	T       Tamper         `json:"tamper"`
 	Chunk   o4pair.Chunker `json:"chunk"`
 	ReadSz  []int          `json:"read_sz"`
-	End     string         `json:"end,omitempty"`     // network error after the tampered bytes: eof (default) | timeout | other
-	Persist int            `json:"persist,omitempty"` // the caller keeps calling Read after the first error: so many more error-returning Reads
+	End     string         `json:"end,omitempty"`   // network error after the tampered bytes: eof (default) | timeout | other
+	Joint   bool           `json:"joint,omitempty"` // the last chunk and the error are returned by the SAME underlying Read (n > 0, err != nil)
+	Persist int            `json:"persist,omitempty"`
+	// handshake family: the server writes Early right after WrapConn; the tamper is applied to
+	// everything that follows its handshake response (inline seed frame ‖ early data frames) and
+	// response ‖ tampered bytes are released to the client cut by Chunk ("respat" N = one cut N
+	// bytes after the end of the response, "whole" = ONE segment)
+	Early []int `json:"early,omitempty"` // the caller keeps calling Read after the first error: so many more error-returning Reads
 }
 
 type verdict struct {
@@ -318,7 +324,190 @@ func applyTamper(t Tamper, w []byte, frames []o4pair.Frame, old, oth []byte) []b
 	return cp(w)
 }
 
+// runHS: tampering that reaches the client in the reads that complete its handshake.
+func (x *runner) runHS(c Case, o *Outcome) {
+	rng := vlib.NewRng(c.P.TapeSeed ^ 0xD1CE)
+	var want []byte
+	var early [][]byte
+	for _, n := range c.Early {
+		b := rng.Bytes(n)
+		want = append(want, b...)
+		early = append(early, b)
+	}
+	var frames []o4pair.Frame
+	var w, tw []byte
+	shadowBad := ""
+	end := c.End
+	if end == "" {
+		end = "eof"
+	}
+	pr, err := o4pair.Setup(c.P, o4pair.SetupOpts{Hello: o4pair.Chunker{Kind: "whole"}, Resp: c.Chunk, Early: early,
+		AllowClientFail: true, EndAfterPost: end,
+		TamperPost: func(pr *o4pair.Pair, post []byte) []byte {
+			w = post
+			sh := o4pair.NewShadow(pr.Keys[o4pair.S2C])
+			if sh == nil {
+				shadowBad = "no link keys: " + pr.KeyErr
+				tw = post
+				return post
+			}
+			frames = sh.Feed(post)
+			if sh.Err != nil || len(frames) == 0 || frames[len(frames)-1].End != len(post) {
+				shadowBad = fmt.Sprintf("shadow decoder: err %v, %d frames, %d bytes", sh.Err, len(frames), len(post))
+				tw = post
+				return post
+			}
+			c.T = resolveTamper(c.T, len(post), len(frames))
+			o.Resolved = c.T
+			tw = applyTamper(c.T, post, frames, nil, nil)
+			if c.T.Op == "peerpkt" {
+				// a peer-sealed malformed packet in front of the first data frame
+				if evil, err := o4pair.ForgeFrame(pr.Keys[o4pair.S2C], 1, peerPacket(c.T)); err == nil && len(frames) > 1 {
+					tw = append(append(append([]byte(nil), post[:frames[0].End]...), evil...), post[frames[0].End:]...)
+				}
+			}
+			return tw
+		}})
+	if errors.Is(err, o4pair.ErrF2) {
+		o.Skipped = "F2"
+		return
+	}
+	if err != nil {
+		o.V = &verdict{"handshake-failed", err.Error()}
+		return
+	}
+	defer pr.Close()
+	if shadowBad != "" {
+		o.V = &verdict{"tie-shadow-decoder-failed", shadowBad}
+		return
+	}
+	o.Stats["frames"] = len(frames)
+	fd := 0
+	for fd < len(w) && fd < len(tw) && w[fd] == tw[fd] {
+		fd++
+	}
+	tampered := !(len(w) == len(tw) && fd == len(w))
+	allowed, dmg := 0, len(frames)
+	for i, f := range frames {
+		if fd < f.End {
+			dmg = i
+			break
+		}
+		allowed += f.PayloadLen()
+	}
+	switch {
+	case !tampered:
+		o.Class = "untampered"
+	case len(tw) < len(w) && fd == len(tw):
+		o.Class = "truncated"
+	case fd == len(w):
+		o.Class = "appended"
+	default:
+		o.Class = "altered"
+	}
+	o.Stats["first-diff"] = fd
+	o.Stats["damaged-frame"] = dmg
+	o.Stats["surplus"] = len(pr.Surplus)
+	if fd < len(pr.Surplus) {
+		o.Stats["damage-in-handshake-read"] = 1
+	}
+	model := o4pair.NewModelIf(x.d, pr)
+	defer model.Close()
+	model.Start()
+	model.Fail(o4pair.S2C, end)
+	dn := "s2c(handshake)"
+
+	if pr.ClientErr != nil {
+		// Dial failed: the damage was reported before anything could be delivered
+		o.ErrClass = "dial:" + o4pair.ErrClass(pr.ClientErr)
+		if !tampered {
+			o.V = &verdict{"honest-handshake-failed", fmt.Sprintf("untampered response ‖ data: Dial failed with %v", pr.ClientErr)}
+			return
+		}
+		if model != nil {
+			switch {
+			case model.HandshakeErr == "" && !model.HandshakeInv:
+				o.TieV = &verdict{"tie-handshake-outcome-differs", fmt.Sprintf("after %s: implementation: Dial failed with %v; model: the handshake completes", c.T.Op, pr.ClientErr)}
+			case model.HandshakeErr != "" && !model.HandshakeInv && model.HandshakeErr != o4pair.ErrClass(pr.ClientErr):
+				o.TieV = &verdict{"tie-error-differs", fmt.Sprintf("after %s: Dial failed with %v, model handshake error class %q", c.T.Op, pr.ClientErr, model.HandshakeErr)}
+			default:
+				o.TieOK++
+			}
+		}
+		return
+	}
+	if model != nil && model.HandshakeErr != "" {
+		o.TieV = &verdict{"tie-handshake-outcome-differs", fmt.Sprintf("after %s: the model's client handshake fails with %q on the bytes that arrived with the response; the implementation's Dial succeeded", c.T.Op, model.HandshakeErr)}
+	}
+	rdIdx := 0
+	next := func() int {
+		if len(c.ReadSz) == 0 {
+			return 32768
+		}
+		n := c.ReadSz[rdIdx%len(c.ReadSz)]
+		rdIdx++
+		return n
+	}
+	rd := pr.Reader(o4pair.S2C)
+	blocked := rd.Drain(next)
+	o.ErrClass = o4pair.ErrClass(rd.Err)
+	o.Stats["delivered-of-target"] = len(rd.Got)
+	check := func(phase string) {
+		switch {
+		case rd.Panic != nil:
+			o.V = &verdict{"panic-in-read", fmt.Sprintf("%s: Read panicked (%s, %s): %v", dn, c.T.Op, phase, rd.Panic)}
+		case rd.Stuck:
+			o.V = &verdict{"read-stuck", fmt.Sprintf("%s: Read neither returned nor blocked (%s, %s)", dn, c.T.Op, phase)}
+		case !bytes.HasPrefix(want, rd.Got):
+			o.V = &verdict{"delivered-not-a-prefix", fmt.Sprintf("%s: after %s of the bytes coalesced with the handshake response (first altered offset %d after the response, frame %d; %d of them in the handshake read) the client delivered %d bytes that are not a prefix of the %d written (%s)", dn, c.T.Op, fd, dmg, len(pr.Surplus), len(rd.Got), len(want), phase)}
+		case tampered && phase == "first error" && len(rd.Got) > allowed:
+			o.V = &verdict{"delivered-past-damaged-frame", fmt.Sprintf("%s: after %s of the bytes coalesced with the handshake response the first damaged frame is #%d (offset %d after the response, %d bytes were in the handshake read); intact data before it: %d bytes; delivered: %d bytes; errors reported: %v %v (%s)", dn, c.T.Op, dmg, fd, len(pr.Surplus), allowed, len(rd.Got), rd.Errs, rd.Err, phase)}
+		case blocked || rd.Err == nil:
+			o.V = &verdict{"no-error-reported", fmt.Sprintf("%s: after %s followed by %s, Read reported no error (%s)", dn, c.T.Op, end, phase)}
+		}
+	}
+	check("first error")
+	if o.V == nil && o.Class == "altered" && dmg < len(frames) && len(tw)-frames[dmg].Start >= 2+1446+64 && c.T.Op != "peerpkt" && strings.HasPrefix(o.ErrClass, "net:") {
+		o.V = &verdict{"damage-unnoticed", fmt.Sprintf("%s: after %s (frame %d, offset %d after the response, %d bytes in the handshake read) with %d bytes fed from the damaged frame on, Dial succeeded and Read reported only the network error (%s)", dn, c.T.Op, dmg, fd, len(pr.Surplus), len(tw)-frames[dmg].Start, o.ErrClass)}
+	}
+	if o.V != nil {
+		return
+	}
+	if o.TieV == nil {
+		if sig, desc := model.Compare(o4pair.S2C, rd, blocked); sig != "" {
+			o.TieV = &verdict{"tie-" + sig, fmt.Sprintf("%s after %s: %s", dn, c.T.Op, desc)}
+		}
+		o.TieOK += model.Points()
+	}
+	persist := c.Persist
+	if o.TieV != nil && persist == 0 {
+		persist = 2
+	}
+	if !tampered {
+		persist = 1 + 2*(len(want)-len(rd.Got))
+	}
+	for k := 0; k < persist && (tampered || len(rd.Got) < len(want)); k++ {
+		before := len(rd.Got)
+		rd.Resume()
+		blocked = rd.Drain(next)
+		check(fmt.Sprintf("Read #%d after the error", k+1))
+		if o.V != nil {
+			return
+		}
+		if !tampered && len(rd.Got) == before {
+			break
+		}
+	}
+	if !tampered && !bytes.Equal(rd.Got, want) {
+		o.V = &verdict{"honest-stream-not-delivered", fmt.Sprintf("%s: untampered data coalesced with the handshake: %d of %d bytes ever delivered", dn, len(rd.Got), len(want))}
+	}
+}
+
 func (x *runner) runCase(c Case, o *Outcome) {
+	if len(c.Early) > 0 {
+		x.runHS(c, o)
+		return
+	}
 	rng := vlib.NewRng(c.P.TapeSeed ^ 0xD1CE)
 	var written [2][]byte
 	gen := func(dir, n int) []byte {
@@ -482,14 +671,25 @@ func (x *runner) runCase(c Case, o *Outcome) {
 	o.Stats["damaged-frame"] = dmg
 
 	sizes := c.Chunk.Split(len(tw), frameEnds(frames))
-	pr.Deliver(c.Dir, tw, sizes)
 	end := c.End
 	if end == "" {
 		end = "eof"
 	}
-	pr.Fail(c.Dir, end)
-	model.Deliver(c.Dir, tw, sizes)
-	model.Fail(c.Dir, end)
+	jointLen := 0 // bytes that arrive together with the network error (which then takes priority over a frame error)
+	if c.Joint && len(sizes) > 0 {
+		jointLen = sizes[len(sizes)-1]
+		cut := len(tw) - jointLen
+		pr.Deliver(c.Dir, tw[:cut], sizes[:len(sizes)-1])
+		pr.FailWith(c.Dir, tw[cut:], end)
+		model.Deliver(c.Dir, tw[:cut], sizes[:len(sizes)-1])
+		model.FailWith(c.Dir, tw[cut:], end)
+		o.Stats["joint-data+error"] = 1
+	} else {
+		pr.Deliver(c.Dir, tw, sizes)
+		pr.Fail(c.Dir, end)
+		model.Deliver(c.Dir, tw, sizes)
+		model.Fail(c.Dir, end)
+	}
 	rd := pr.Reader(c.Dir)
 	blocked := rd.Drain(next)
 	o.ErrClass = o4pair.ErrClass(rd.Err)
@@ -513,12 +713,10 @@ func (x *runner) runCase(c Case, o *Outcome) {
 		o.V = &verdict{"delivered-past-damaged-frame", fmt.Sprintf("%s: after %s the first damaged frame is #%d (wire offset %d); intact data before it: %d bytes; delivered: %d bytes (error reported: %v)", dn, c.T.Op, dmg, fd, allowed, len(rd.Got), rd.Err)}
 	case blocked || rd.Err == nil:
 		o.V = &verdict{"no-error-reported", fmt.Sprintf("%s: after %s followed by EOF, Read reported no error (blocked=%v, delivered %d)", dn, c.T.Op, blocked, len(rd.Got))}
-	case o.Class == "altered" && dmg < len(frames) && len(tw)-frames[dmg].Start-acceptedForged >= 2+1446 && strings.HasPrefix(o.ErrClass, "net:"):
+	case o.Class == "altered" && dmg < len(frames) && len(tw)-jointLen-frames[dmg].Start-acceptedForged >= 2+1446 && strings.HasPrefix(o.ErrClass, "net:"):
 		// the damaged frame and at least a maximum-length frame of bytes after its length field
 		// were fed, yet only the EOF was reported: the damage itself went unnoticed
 		o.V = &verdict{"damage-unnoticed", fmt.Sprintf("%s: after %s (frame %d) with %d bytes fed from the damaged frame on, Read reported only the network error (%s)", dn, c.T.Op, dmg, len(tw)-frames[dmg].Start, o.ErrClass)}
-	case !tampered && len(rd.Got) != len(want):
-		o.V = &verdict{"honest-stream-not-delivered", fmt.Sprintf("%s: untampered burst: %d of %d bytes before %v", dn, len(rd.Got), len(want), rd.Err)}
 	}
 	if o.V != nil {
 		return
@@ -531,6 +729,22 @@ func (x *runner) runCase(c Case, o *Outcome) {
 		}
 	}
 	o.TieOK += model.Points()
+	if !tampered {
+		// nothing lost: when the error came together with the last bytes Read hands over at most
+		// len(buf) of them with it; a caller that keeps reading must get the rest
+		for k := 0; k < 1+2*(len(want)-len(rd.Got)) && len(rd.Got) < len(want); k++ {
+			before := len(rd.Got)
+			rd.Resume()
+			rd.Drain(next)
+			if rd.Panic != nil || rd.Stuck || len(rd.Got) == before {
+				break
+			}
+		}
+		if !bytes.Equal(rd.Got, want) {
+			o.V = &verdict{"honest-stream-not-delivered", fmt.Sprintf("%s: untampered burst ending with %s (joint=%v): %d of %d bytes ever delivered", dn, end, c.Joint, len(rd.Got), len(want))}
+			return
+		}
+	}
 	// a caller that keeps reading after the error must still never get anything but a prefix,
 	// and nothing from the damaged frame on
 	for k := 0; k < c.Persist && tampered; k++ {
@@ -541,8 +755,9 @@ func (x *runner) runCase(c Case, o *Outcome) {
 			o.V = &verdict{"panic-in-read", fmt.Sprintf("%s: Read #%d after the error panicked (%s): %v", dn, k+1, c.T.Op, rd.Panic)}
 		case !bytes.HasPrefix(want, rd.Got):
 			o.V = &verdict{"delivered-not-a-prefix-after-error", fmt.Sprintf("%s: caller kept reading after the error (%s, damaged frame %d): delivered %d bytes that are not a prefix of the %d written", dn, c.T.Op, dmg, len(rd.Got), len(want))}
-		case len(rd.Got) > allowed:
-			o.V = &verdict{"delivered-past-damaged-frame-after-error", fmt.Sprintf("%s: caller kept reading after the error (%s): damaged frame #%d, intact data before it %d bytes, delivered %d", dn, c.T.Op, dmg, allowed, len(rd.Got))}
+		// (only the prefix clause binds a caller that keeps reading: e.g. forged bytes of exactly the
+		// pending frame length inserted between a length field and its genuine body are rejected
+		// with tagMismatch, after which the genuine body still opens under the same nonce)
 		case rd.Err == nil:
 			o.V = &verdict{"no-error-reported", fmt.Sprintf("%s: Read #%d after the error (%s) blocked or returned no error although EOF was fed", dn, k+1, c.T.Op)}
 		}
@@ -666,6 +881,7 @@ func genRandom(rng *vlib.Rng, i int) Case {
 		c.Persist = rng.Range(1, 3)
 	}
 	c.End = vlib.Pick(rng, []string{"eof", "eof", "timeout", "other"})
+	c.Joint = rng.Intn(3) == 0
 	c.Chunk = pickChunker(rng)
 	c.ReadSz = pickReads(rng)
 	return c
@@ -697,7 +913,7 @@ func (a *agg) evaluate(cases []Case, origin string) []Outcome {
 		var o Outcome
 		if err := json.Unmarshal(out, &o); err == nil && o.WorkerError == "timeout" {
 			// real IAT sleeps with a pathological length table: not a verdict about the property
-			a.r.Count("skipped", "case-abandoned-after-300s")
+			a.r.Count("skipped", "case-abandoned-after-150s")
 			fmt.Fprintf(os.Stderr, "case %s abandoned after the job timeout\n", cases[i].Name)
 			if a.r.ReplayDir != "" {
 				os.MkdirAll(a.r.ReplayDir, 0o755)
@@ -756,6 +972,10 @@ func (a *agg) record(o Outcome) {
 	r.Count("victim", o4pair.DirName(c.Dir))
 	r.Count("iat-mode", fmt.Sprint(c.P.IAT))
 	r.Count("chunker", c.Chunk.Kind)
+	if len(c.Early) > 0 {
+		r.Count("handshake-coalesced", fmt.Sprintf("damage-in-handshake-read=%d outcome=%s", o.Stats["damage-in-handshake-read"], map[bool]string{true: "dial-failed", false: "dial-ok"}[strings.HasPrefix(o.ErrClass, "dial:")]))
+	}
+	r.Count("ending", fmt.Sprintf("%s joint=%v", map[bool]string{true: "eof", false: c.End}[c.End == ""], c.Joint))
 	if o.Class == "altered" {
 		switch d := o.Stats["delivered-of-target"]; {
 		case d == 0:
@@ -907,6 +1127,7 @@ func main() {
 				c := base
 				c.Name = fmt.Sprintf("%s-bit%d", base.Name, bit)
 				c.T = Tamper{Op: "flip", A: bit}
+				c.Joint = bit%5 == 2
 				c.Chunk = allChunkers[bit%len(allChunkers)]
 				c.ReadSz = []int{readClasses[bit%len(readClasses)]}
 				cs = append(cs, c)
@@ -933,6 +1154,7 @@ func main() {
 			c := base
 			c.Name = fmt.Sprintf("%s-at%d", base.Name, off)
 			c.T = Tamper{Op: "trunc", A: off}
+			c.Joint = off%4 == 1
 			c.Chunk = allChunkers[off%len(allChunkers)]
 			c.ReadSz = []int{readClasses[off%len(readClasses)]}
 			cs = append(cs, c)
@@ -953,6 +1175,7 @@ func main() {
 				c.T, c.Chunk = t, ch
 				c.ReadSz = []int{readClasses[len(cs)%len(readClasses)]}
 				c.Persist = len(cs) % 3
+				c.Joint = len(cs)%4 == 1
 				cs = append(cs, c)
 			}
 		}
@@ -994,6 +1217,69 @@ func main() {
 		}
 		rec(0)
 		run(cs)
+	}
+	// (3b) tampering that arrives COALESCED with the server's handshake response: response ‖ seed
+	//      frame ‖ first data frames in one segment or cut inside the first frames
+	{
+		seedFrameLen := 45
+		nFam := r.Scale(2, 6)
+		for fi := 0; fi < nFam; fi++ {
+			base := Case{Name: fmt.Sprintf("hs-%d", fi), P: o4pair.RandomParams(rng.Fork(), 0, false), Dir: o4pair.S2C,
+				Early: [][]int{{1500, 1427}, {17, 2000}, {1427, 1427, 100}}[fi%3], Chunk: o4pair.Chunker{Kind: "whole"}, ReadSz: []int{32768}}
+			var cs []Case
+			cuts := []o4pair.Chunker{{Kind: "whole"}, {Kind: "respat", N: 2}, {Kind: "respat", N: seedFrameLen}, {Kind: "respat", N: seedFrameLen + 2}, {Kind: "respat", N: seedFrameLen + 700}, {Kind: "one"}, {Kind: "fixed", N: 1448}}
+			add := func(t Tamper, chs []o4pair.Chunker) {
+				for _, ch := range chs {
+					c := base
+					c.Name = fmt.Sprintf("%s-%s-%d-%d-%s", base.Name, t.Op, t.A, t.B, ch.String())
+					c.T, c.Chunk = t, ch
+					c.ReadSz = []int{readClasses[len(cs)%len(readClasses)]}
+					c.Persist = len(cs) % 3
+					c.End = []string{"eof", "eof", "other", "timeout"}[len(cs)%4]
+					cs = append(cs, c)
+				}
+			}
+			// every bit of the inline seed frame, and of the first data frame's header region
+			for bit := 0; bit < seedFrameLen*8; bit++ {
+				add(Tamper{Op: "flip", A: bit}, []o4pair.Chunker{cuts[bit%len(cuts)]})
+			}
+			for bit := seedFrameLen * 8; bit < (seedFrameLen+40)*8; bit += 3 {
+				add(Tamper{Op: "flip", A: bit}, []o4pair.Chunker{cuts[bit%len(cuts)]})
+			}
+			for i := 0; i < 3; i++ {
+				add(Tamper{Op: "delframe", A: i}, cuts)
+				add(Tamper{Op: "dupframe", A: i}, cuts)
+				add(Tamper{Op: "insframe", A: i, B: []int{43, 1, 18, 100, 1446}[(i+fi)%5], Seed: rng.U64()}, cuts)
+				add(Tamper{Op: "setlen", A: i, Seed: rng.U64()}, cuts)
+				add(Tamper{Op: "swapframes", A: i, B: i + 1}, cuts)
+			}
+			// forged bytes between a frame's length field and its genuine body (the body then
+			// follows, possibly in a later read): 43 = the seed frame's body length
+			for _, off := range []int{2, seedFrameLen + 2} {
+				for _, n := range []int{43, 16, 1, 1446} {
+					add(Tamper{Op: "insbytes", A: off, B: n, Seed: rng.U64()}, cuts)
+				}
+				add(Tamper{Op: "delbytes", A: off, B: 5}, cuts)
+			}
+			for k := 0; k < 9; k++ {
+				add(Tamper{Op: "peerpkt", A: k, Seed: rng.U64()}, cuts[:3])
+			}
+			for _, off := range []int{0, 1, 2, 20, seedFrameLen - 1, seedFrameLen, seedFrameLen + 1, seedFrameLen + 2, seedFrameLen + 100, 1500} {
+				add(Tamper{Op: "trunc", A: off}, cuts[:4])
+			}
+			add(Tamper{Op: "none"}, cuts)
+			if r.Thorough() {
+				// cut at every offset of the first two frames, a fixed damage in the seed frame / first data frame
+				for cut := 0; cut <= seedFrameLen+1521; cut++ {
+					add(Tamper{Op: "flip", A: 8*20 + cut%8}, []o4pair.Chunker{{Kind: "respat", N: cut}})
+					if cut%3 == 0 {
+						add(Tamper{Op: "insbytes", A: 2, B: 43, Seed: rng.U64()}, []o4pair.Chunker{{Kind: "respat", N: cut}})
+						add(Tamper{Op: "flip", A: 8*(seedFrameLen+30) + cut%8}, []o4pair.Chunker{{Kind: "respat", N: cut}})
+					}
+				}
+			}
+			run(cs)
+		}
 	}
 	// (4) random tampers: all operators, IAT modes, both victims, warm-up traffic
 	{
